@@ -86,6 +86,41 @@ Definition format_r (w : cwrapper) : res (option cslot) :=
          end
   end.
 
+(* detect_file_format with the queries as they are: [if wrapper.format: return wrapper.format] and the final
+   [return wrapper.format] use the raising property *)
+Definition format_name_r (w : cwrapper) : res (option str) :=
+  match format_r w with Ok (Some m) => Ok (Some (s_name m)) | Ok None => Ok None | Exn e => Exn e end.
+
+Fixpoint detect_loop_r (fuel : nat) (chunk_size : Z) (w : cwrapper) (s : fsrc)
+  : cwrapper * fsrc * list eat_ev * option (res (option str)) :=
+  match fuel with
+  | O => (w, s, [], None)
+  | S k =>
+    let '(w1, s1, tr1, _, o) := cw_read w s chunk_size in
+    match o with
+    | OutExn e => (w1, s1, tr1, Some (Exn e))
+    | OutNone => (w1, s1, tr1, None)
+    | OutChunk [] => (w1, s1, tr1, None)
+    | OutChunk _ =>
+      match format_name_r w1 with
+      | Exn e => (w1, s1, tr1, Some (Exn e))
+      | Ok (Some nm) => (w1, s1, tr1, Some (Ok (Some nm)))
+      | Ok None =>
+        let '(w2, s2, tr2, r) := detect_loop_r k chunk_size w1 s1 in (w2, s2, tr1 ++ tr2, r)
+      end
+    end
+  end.
+
+Definition detect_r (data : bytes) : cwrapper * fsrc * list eat_ev * res (option str) :=
+  let w := cw_new None [] in
+  let s := {| f_data := data; f_pos := 0; f_closed := false |} in
+  let '(w1, s1, tr, r) := detect_loop_r (S (length data)) detect_chunk_size w s in
+  let (w2, s2) := w_close_f istate finish w1 s1 in
+  match r with
+  | Some r' => (w2, s2, tr, r')
+  | None => (w2, s2, tr, format_name_r w2)
+  end.
+
 (* ------------------------------------------------------------------ vocabulary of the statements *)
 (* the inspector collection of a wrapper consists of reachable inspector objects *)
 Definition slot_name_ok (s : cslot) : Prop := s_name s = fmt_name (name_of (s_insp s)).
